@@ -30,17 +30,21 @@ import (
 )
 
 type poolState struct {
+	stale map[ssa.Instruction]string // Put sites whose buffer is still referenced from these fields
 	dead  map[ssa.Value]bool
 	moved map[ssa.Value]bool
 	cell  map[*ssa.Alloc]map[ssa.Value]bool // []byte locals, and struct locals (buffers stored in their fields)
 }
 
 func newPoolState() *poolState {
-	return &poolState{dead: map[ssa.Value]bool{}, moved: map[ssa.Value]bool{}, cell: map[*ssa.Alloc]map[ssa.Value]bool{}}
+	return &poolState{stale: map[ssa.Instruction]string{}, dead: map[ssa.Value]bool{}, moved: map[ssa.Value]bool{}, cell: map[*ssa.Alloc]map[ssa.Value]bool{}}
 }
 
 func (s *poolState) clone() *poolState {
 	n := newPoolState()
+	for k, v := range s.stale {
+		n.stale[k] = v
+	}
 	for k, v := range s.dead {
 		n.dead[k] = v
 	}
@@ -60,6 +64,12 @@ func (s *poolState) clone() *poolState {
 // join: union; reports whether s changed.
 func (s *poolState) join(o *poolState) bool {
 	ch := false
+	for k, v := range o.stale {
+		if _, ok := s.stale[k]; !ok {
+			s.stale[k] = v
+			ch = true
+		}
+	}
 	for k, v := range o.dead {
 		if v && !s.dead[k] {
 			s.dead[k] = true
@@ -96,11 +106,14 @@ func isBytes(t types.Type) bool {
 }
 
 type poolPass struct {
-	cache    map[string]ssa.Value // block-local: canonical address expression -> origin of its last load
-	env      *Env
-	recycles map[*ssa.Function]map[int]bool // function -> parameter indexes it recycles
-	obl      []*Oblig
-	occ      map[string]int
+	allocFields   map[*ssa.Alloc][]string // locals of pointer / container type: the fields their value was loaded through
+	cache         map[string]ssa.Value    // block-local: canonical address expression -> origin of its last load
+	env           *Env
+	recycles      map[*ssa.Function]map[int]bool // function -> parameter indexes it recycles
+	obl           []*Oblig
+	occ           map[string]int
+	staleReported map[ssa.Instruction]bool
+	staleSites    map[ssa.Instruction]string
 }
 
 // canon: a canonical text for an address / value expression built from local variables only
@@ -214,6 +227,66 @@ func (pp *poolPass) originsDeep(st *poolState, v ssa.Value) []ssa.Value {
 	return nil
 }
 
+// heapFields: the struct fields on the way from an object the function did not create to the
+// value v (a buffer loaded out of a container): e.g. ["elements" "shardSet"] for a packet read
+// from a shard heap found in dec.shardSet. Empty if v comes from a local (a slice built here, a
+// call result, a parameter).
+func (pp *poolPass) heapFields(st *poolState, v ssa.Value, depth int) []string {
+	if depth > 24 || v == nil {
+		return nil
+	}
+	switch x := v.(type) {
+	case *ssa.Slice:
+		return pp.heapFields(st, x.X, depth+1)
+	case *ssa.ChangeType:
+		return pp.heapFields(st, x.X, depth+1)
+	case *ssa.Convert:
+		return pp.heapFields(st, x.X, depth+1)
+	case *ssa.Phi:
+		if len(x.Edges) > 0 {
+			return pp.heapFields(st, x.Edges[0], depth+1)
+		}
+	case *ssa.Extract:
+		return pp.heapFields(st, x.Tuple, depth+1)
+	case *ssa.Next:
+		return pp.heapFields(st, x.Iter, depth+1)
+	case *ssa.Range:
+		return pp.heapFields(st, x.X, depth+1)
+	case *ssa.Lookup:
+		return pp.heapFields(st, x.X, depth+1)
+	case *ssa.IndexAddr:
+		return pp.heapFields(st, x.X, depth+1)
+	case *ssa.FieldAddr:
+		name := ""
+		if stt := structOf(derefType(x.X.Type())); stt != nil {
+			name = stt.Field(x.Field).Name()
+		}
+		if _, isLocal := x.X.(*ssa.Alloc); isLocal {
+			return nil
+		}
+		return append([]string{name}, pp.heapFields(st, x.X, depth+1)...)
+	case *ssa.UnOp:
+		if x.Op != token.MUL {
+			return nil
+		}
+		if a, ok := x.X.(*ssa.Alloc); ok {
+			// a local variable: where did its value come from?
+			var best []string
+			for o := range st.cell[a] {
+				if f := pp.heapFields(st, o, depth+1); len(f) > len(best) {
+					best = f
+				}
+			}
+			if best == nil {
+				best = pp.allocFields[a]
+			}
+			return best
+		}
+		return pp.heapFields(st, x.X, depth+1)
+	}
+	return nil
+}
+
 // localBase: the local variable an address points into (array/struct temporaries), or nil.
 func localBase(a ssa.Value) *ssa.Alloc {
 	switch x := a.(type) {
@@ -251,6 +324,19 @@ func (pp *poolPass) isSink(cc *ssa.CallCommon) bool {
 func (pp *poolPass) isPut(c *ssa.CallCommon) bool {
 	f := c.StaticCallee()
 	return f != nil && pp.env.keyOf(f) == "bufferPool.Put"
+}
+
+// detach: a write to field f (or a delete/clear on the container in it) removes the references
+// the recycled buffers were reachable through.
+func (pp *poolPass) detach(st *poolState, f string) {
+	for p, fields := range st.stale {
+		for _, g := range strings.Split(fields, " <- ") {
+			if g == f {
+				delete(st.stale, p)
+				break
+			}
+		}
+	}
 }
 
 func (pp *poolPass) report(fn *ssa.Function, pos token.Pos, kind, desc string, ok bool) {
@@ -306,6 +392,14 @@ func (pp *poolPass) step(fn *ssa.Function, st *poolState, in ssa.Instruction, re
 	switch i := in.(type) {
 	case *ssa.Store:
 		if a, ok := i.Addr.(*ssa.Alloc); ok {
+			if !isBytes(i.Val.Type()) {
+				if f := pp.heapFields(st, i.Val, 0); len(f) > 0 {
+					if pp.allocFields == nil {
+						pp.allocFields = map[*ssa.Alloc][]string{}
+					}
+					pp.allocFields[a] = f
+				}
+			}
 			if isBytes(i.Val.Type()) {
 				m := map[ssa.Value]bool{}
 				for _, o := range pp.origins(st, i.Val) {
@@ -314,6 +408,11 @@ func (pp *poolPass) step(fn *ssa.Function, st *poolState, in ssa.Instruction, re
 				st.cell[a] = m
 			}
 			return
+		}
+		if fa, ok := i.Addr.(*ssa.FieldAddr); ok {
+			if stt := structOf(derefType(fa.X.Type())); stt != nil {
+				pp.detach(st, stt.Field(fa.Field).Name())
+			}
 		}
 		if !isBytes(i.Val.Type()) {
 			if _, isAlloc := i.Addr.(*ssa.Alloc); !isAlloc {
@@ -368,6 +467,19 @@ func (pp *poolPass) step(fn *ssa.Function, st *poolState, in ssa.Instruction, re
 		for _, r := range i.Results {
 			use(r, "returned")
 		}
+		if rep {
+			var sites []ssa.Instruction
+			for p := range st.stale {
+				sites = append(sites, p)
+			}
+			sort.Slice(sites, func(a, b int) bool { return sites[a].Pos() < sites[b].Pos() })
+			for _, p := range sites {
+				if !pp.staleReported[p] {
+					pp.staleReported[p] = true
+					pp.report(fn, p.Pos(), "no-stale-reference", "recycled buffer stays referenced from "+st.stale[p]+" at return: "+pp.env.srcAt(p.Pos()), false)
+				}
+			}
+		}
 	case *ssa.Send:
 		use(i.X, "sent")
 		for _, o := range pp.originsDeep(st, i.X) {
@@ -395,7 +507,18 @@ func (pp *poolPass) step(fn *ssa.Function, st *poolState, in ssa.Instruction, re
 			for _, o := range os {
 				st.dead[o] = true
 			}
+			if f := pp.heapFields(st, cc.Args[1], 0); len(f) > 0 {
+				st.stale[i] = strings.Join(f, " <- ")
+				if rep {
+					pp.staleSites[i] = st.stale[i]
+				}
+			}
 			return
+		}
+		if b, ok := cc.Value.(*ssa.Builtin); ok && (b.Name() == "delete" || b.Name() == "clear") && len(cc.Args) > 0 {
+			for _, f := range pp.heapFields(st, cc.Args[0], 0) {
+				pp.detach(st, f)
+			}
 		}
 		if b, ok := cc.Value.(*ssa.Builtin); ok && (b.Name() == "len" || b.Name() == "cap") {
 			return
@@ -548,7 +671,7 @@ func (pp *poolPass) analyse(fn *ssa.Function, rep bool) {
 
 func runPoolDiscipline(env *Env) *Unit {
 	u := &Unit{Key: "pool-typestate", Notes: map[string]bool{}, Trusted: map[string]bool{}, Inlined: map[string]bool{}}
-	pp := &poolPass{env: env, recycles: map[*ssa.Function]map[int]bool{}, occ: map[string]int{}}
+	pp := &poolPass{env: env, recycles: map[*ssa.Function]map[int]bool{}, occ: map[string]int{}, staleReported: map[ssa.Instruction]bool{}, staleSites: map[ssa.Instruction]string{}}
 	var keys []string
 	for k := range env.funcs {
 		keys = append(keys, k)
@@ -569,6 +692,16 @@ func runPoolDiscipline(env *Env) *Unit {
 	}
 	for _, fn := range all {
 		pp.analyse(fn, true)
+		var sites []ssa.Instruction
+		for p := range pp.staleSites {
+			if p.Parent() == fn && !pp.staleReported[p] {
+				sites = append(sites, p)
+			}
+		}
+		sort.Slice(sites, func(a, b int) bool { return sites[a].Pos() < sites[b].Pos() })
+		for _, p := range sites {
+			pp.report(fn, p.Pos(), "no-stale-reference", "the reference through "+pp.staleSites[p]+" is overwritten or removed before return: "+env.srcAt(p.Pos()), true)
+		}
 	}
 	u.Obligs = pp.obl
 	if len(pp.obl) == 0 {
